@@ -1,8 +1,129 @@
 import Oracle.Util
-/-! Oracle handlers for C10 (model functions exposed on the line protocol). -/
+import Oracle.C01
+import Oracle.C08
+import Oracle.C09
+import MobiusModel.Tree
+/-! Oracle handlers for C10 (model functions exposed on the line protocol).
+
+  Tree tokens (preorder): `D <name> <number of children> …children…` | `F <filespec>` (file spec as in C08).
+  Actions: `s` (send) | `n` (next) | `r<k>` (resume from k).
+  Paths: hex components joined by `/` (`-` = the upload folder itself). -/
 namespace Oracle
 open Mobius
 
-def c10Handlers : List (String × Handler) := []
+mutual
+partial def parseNode : List String → Option (Node × List String)
+  | "D" :: nm :: n :: rest =>
+    match parseKids (num n) rest with
+    | some (ks, rest') => some (.dir (hexb nm) ks, rest')
+    | none => none
+  | "F" :: rest =>
+    match fileOfArgs rest with
+    | some (f, rest') => some (.file f, rest')
+    | none => none
+  | _ => none
+partial def parseKids : Nat → List String → Option (List Node × List String)
+  | 0, rest => some ([], rest)
+  | n + 1, rest =>
+    match parseNode rest with
+    | some (k, rest') =>
+      match parseKids n rest' with
+      | some (ks, rest'') => some (k :: ks, rest'')
+      | none => none
+    | none => none
+end
+
+def parseAction (s : String) : Action :=
+  if s = "n" then .next else if s.startsWith "r" then .resume (num (s.drop 1).toString) else .send
+
+def pathStr (p : List Bytes) : String := if p.isEmpty then "-" else "/".intercalate (p.map toHex)
+
+def parsePath (s : String) : List Bytes := if s = "-" then [] else (s.splitOn "/").map hexb
+
+/-- One item of the folder-download dialogue: header, kind, and the body split into
+    size prefix / flattened-file header / data length / trailer (without the fork bytes) / fork length. -/
+def itemStr (e : Entry) (a : Action) (o : ItemOut) : String :=
+  match e.file with
+  | none => s!"{toHex o.header} d {o.body.length}"
+  | some f =>
+    if o.body.isEmpty then s!"{toHex o.header} f 0" else
+    let k := match a with | .resume k => k | _ => 0
+    let rem := f.data.length - k
+    let after := o.body.drop (4 + f.hdrLen + rem)
+    let rl := if after.isEmpty then 0 else f.rsrcSize
+    s!"{toHex o.header} f {o.body.length} prefix={rd32 o.body} ffo={toHex ((o.body.drop 4).take f.hdrLen)} data={rem} trailer={toHex (after.take (after.length - rl))} rsrc={rl}"
+
+def slotStr (s : Slot) : String :=
+  (match s.final with | some .dir => "d" | some (.file d) => s!"f{d.length}" | none => "") ++
+  (match s.inc with | some p => s!"p{p.length}" | none => "")
+
+def parseSlot (s : String) : Slot :=
+  -- d | f<n> | p<n> | f<n>p<m> | dp<m>
+  let (fin, inc) := match s.splitOn "p" with
+    | [a, b] => (a, some (num b))
+    | [a] => (a, none)
+    | _ => ("", none)
+  { final := if fin = "d" then some .dir else if fin.startsWith "f" then some (.file (List.replicate (num (fin.drop 1).toString) 0)) else none,
+    inc := inc.map (fun n => List.replicate n 0) }
+
+def parseFs : List String → Fs
+  | [] => []
+  | t :: rest => match t.splitOn ":" with
+    | [p, s] => (parsePath p, parseSlot s) :: parseFs rest
+    | _ => parseFs rest
+
+partial def parseItems : List String → List UpItem
+  | "D" :: p :: rest => { path := parsePath p, isDir := true } :: parseItems rest
+  | "F" :: p :: fc :: rest =>
+    match infoOfArgs rest with
+    | some (i, dl :: rl :: rest') =>
+      { path := parsePath p, isDir := false, fc := num fc, info := i, data := List.replicate (num dl) 0, rsrc := List.replicate (num rl) 0 } :: parseItems rest'
+    | _ => []
+  | _ => []
+
+/-- distinct bound paths of a store, most recent binding, non-empty slots only -/
+def fsListing (fs : Fs) : List String :=
+  let paths := fs.foldl (fun acc (p : List Bytes × Slot) => if acc.contains p.1 then acc else acc ++ [p.1]) ([] : List (List Bytes))
+  (paths.filterMap fun p => let s := fs.get p; if s = {} then none else some (pathStr p ++ ":" ++ slotStr s))
+
+def splitBar (a : List String) : List (List String) :=
+  a.foldr (fun s acc => if s = "|" then [] :: acc else match acc with | h :: t => (s :: h) :: t | [] => [[s]]) [[]]
+
+def c10Handlers : List (String × Handler) := [
+  -- walk <tree> → the callbacks of filepath.Walk: path, d|f, visible
+  ("walk", fun (a : List String) => match parseNode a with
+    | some (t, []) => " ".intercalate ((t.walk []).map fun e => s!"{pathStr e.path}:{if e.isDir then "d" else "f"}:{if e.visible then 1 else 0}")
+    | _ => "bad-op"),
+  -- fcount <tree> → field 220, field 108
+  ("fcount", fun (a : List String) => match parseNode a with
+    | some (t, []) => s!"{t.itemCount} {t.totalSize}"
+    | _ => "bad-op"),
+  -- fdl <actions…> | <tree> → count ; items
+  ("fdl", fun (a : List String) => match splitBar a with
+    | [acts, tree] => match parseNode tree with
+      | some (t, []) =>
+        let as := acts.map parseAction
+        let outs := downloadFolder t as
+        let es := t.items
+        let rows := (es.zip (as ++ List.replicate es.length Action.send)).zip outs
+        s!"count={t.itemCount} n={outs.length}" ++ String.join (rows.map fun r => " | " ++ itemStr r.1.1 r.1.2 r.2)
+      | _ => "bad-op"
+    | _ => "bad-op"),
+  -- ful <cut: -|index:n> | <store: path:slot …> | <items> → ok ; what the server wrote per item ; the store
+  ("ful", fun (a : List String) => match splitBar a with
+    | [cut, store, items] =>
+      let its := parseItems items
+      let cutAt : Option (Nat × Nat) := match cut with
+        | [c] => (match c.splitOn ":" with | [i, n] => some (num i, num n) | _ => none)
+        | _ => none
+      let withCuts := its.zipIdx.map fun (it, idx) => (it, match cutAt with | some (i, n) => if i = idx then some n else none | none => none)
+      let (fs, ws, ok) := uploadItems (parseFs store) withCuts
+      s!"ok={ok} wrote=" ++ " ".intercalate (ws.map toHex) ++ " fs=" ++ " ".intercalate (fsListing fs)
+    | _ => "bad-op"),
+  -- fanswer <store> | <path> → the answer to a file item
+  ("fanswer", fun (a : List String) => match splitBar a with
+    | [store, [p]] => toHex ((parseFs store).answer (parsePath p)).bytes
+    | _ => "bad-op")
+]
 
 end Oracle
